@@ -542,6 +542,24 @@ def switches_on_call_value(body, rx):
     several paths: [(switch_bb, true_target, false_target, call_bb)], targets w.r.t. the call's result."""
     if isinstance(rx, str):
         rx = re.compile(rx)
+    ba = BA.of(body)
+    out = []
+    for i in sorted(ba.live):
+        t = body.blocks[i]["term"]
+        if t["t"] != "switch" or t["discr_ty"] != "bool":
+            continue
+        f_t = None
+        for v, tg in t["arms"]:
+            if v == 0:
+                f_t = tg
+        if f_t is None:
+            continue
+        t_t = t["otherwise"]
+        for (neg, cbb, ct) in bool_value_calls(body, t["discr"]):
+            if call_matches(ct, rx):
+                out.append((i, f_t, t_t, cbb) if neg else (i, t_t, f_t, cbb))
+    return out
+
 
 
 def copy_root(body, l):
@@ -569,20 +587,6 @@ def eq_const_edges(body, is_x, value):
     out = []
     for i in sorted(ba.live):
         t = body.blocks[i]["term"]
-        if t["t"] != "switch" or t["discr_ty"] != "bool":
-            continue
-        f_t = None
-        for v, tg in t["arms"]:
-            if v == 0:
-                f_t = tg
-        if f_t is None:
-            continue
-        t_t = t["otherwise"]
-        for (neg, cbb, ct) in bool_value_calls(body, t["discr"]):
-            if call_matches(ct, rx):
-                out.append((i, f_t, t_t, cbb) if neg else (i, t_t, f_t, cbb))
-
-
         if t["t"] != "switch":
             continue
         bs = ba.bool_switch(i)
